@@ -396,6 +396,85 @@ def run(ctx, only=None):
                            ('poly @ Pauli', lambda: impl.poly(ts_) @ impl.pauli(Pk), lambda: tpoly(ts_) @ tpauli(Pk)),
                            ('Pauli @ poly', lambda: impl.pauli(Pk) @ impl.poly(ts_), lambda: tpauli(Pk) @ tpoly(ts_))):
             probe('PauliPolynomial arithmetic (mixed operands)', lambda: pa_(fp()), lambda: ta_(ft()), (nm, ts_, Pk, Ls), cmp=close_maps)
+    # ---- print-then-parse (the printed form of real phases carries a blank), traces with complex coefficients, reduce leaves its
+    #      receiver alone, rotation gates with an explicit register, density matrices of wide mixed states, unsorted regions
+    for _ in range(nx):
+        n = rng.choice([1, 2, 3])
+        Pk = G.rand_op(rng, n)
+        probe('pauli(repr(P))', lambda: impl.ops_of(pc.pauli(repr(impl.pauli(Pk)))), lambda: t_ops(tc.pauli(repr(tpauli(Pk)))), Pk)
+        Ls = [G.rand_op(rng, n) for _k in range(3)]
+        probe('paulis(repr lines)', lambda: impl.ops_of(pc.paulis(*[ln for ln in repr(impl.plist(Ls)).splitlines()])),
+              lambda: t_ops(tc.paulis(*[ln for ln in repr(tlist(Ls, n)).splitlines()])), Ls)
+        ts_ = [((tuple('I' * n), rng.randrange(4)), complex(rng.choice([0.5, -2, 1]), rng.choice([2, -0.5, 1]))), (G.rand_op(rng, n), complex(1, 1))]
+        probe('PauliPolynomial.trace', lambda: complex(impl.poly(ts_).reduce().trace()), lambda: complex(tpoly(ts_).reduce(tol=1e-7).trace()), ts_, cmp=lambda a_, b_: abs(a_ - b_) < 1e-5)
+        probe('PauliPolynomial.trace', lambda: complex((impl.poly(ts_) @ impl.poly(ts_)).reduce().trace()), lambda: complex((tpoly(ts_) @ tpoly(ts_)).reduce(tol=1e-7).trace()), ('product', ts_), cmp=lambda a_, b_: abs(a_ - b_) < 1e-4)
+        pa_ = lambda p: cmap_of(np.asarray(p.gs), np.asarray(p.ps), np.asarray(p.cs))
+        ta_ = lambda p: cmap_of(p.gs.tolist(), p.ps.tolist(), p.cs.tolist())
+        t1_ = [(G.rand_op(rng, n), complex(rng.choice([1, -1, 2]), rng.choice([0, 1]))) for _k in range(2)]
+
+        def recv_py():
+            P_ = impl.poly(t1_) @ impl.poly(ts_); before = pa_(P_); P_.reduce(); return close_maps(before, pa_(P_))
+
+        def recv_t():
+            P_ = tpoly(t1_) @ tpoly(ts_); before = ta_(P_); P_.reduce(); return close_maps(before, ta_(P_))
+        probe('PauliPolynomial.reduce leaves its receiver unchanged', recv_py, recv_t, (t1_, ts_))
+        # rotation gates with an explicit register (generators with identity sites before or between the others)
+        m_ = rng.choice([3, 4])
+        reg = sorted(rng.sample(range(m_ + 1), m_))
+        gen = (tuple(rng.choice('IIXYZ') for _k in range(m_)), rng.choice([0, 2]))
+        if all(c == 'I' for c in gen[0]):
+            gen = (('I',) * (m_ - 1) + ('X',), 0)
+        Qs_ = [G.rand_op(rng, m_ + 1) for _k in range(3)]
+        probe('clifford_rotation_gate(qubits=)', lambda: impl.ops_of(CI.clifford_rotation_gate(impl.pauli(gen), np.array(reg)).forward(impl.plist(Qs_))),
+              lambda: t_ops(TCI.clifford_rotation_gate(tpauli(gen), np.array(reg)).forward(tlist(Qs_, m_ + 1))), (gen, reg, Qs_))
+        # diagonalizing circuits used after compile() / after copy() of the fresh circuit
+        n5 = rng.choice([2, 3, 4])
+        nz5 = G.rand_op(rng, n5, nonid=True)[0]
+        i5 = rng.randrange(n5)
+        Q5 = [(nz5, 0)] + [G.rand_op(rng, n5) for _k in range(2)]
+
+        def dg(side, how):
+            c_ = (CI.diagonalize(impl.pauli((nz5, 0)), i5) if side == 'py' else TCI.diagonalize(tpauli((nz5, 0)), i5))
+            if how == 'compiled':
+                c_.compile()
+            elif how == 'copy':
+                c_ = c_.copy()
+            lst_ = impl.plist(Q5) if side == 'py' else tlist(Q5, n5)
+            c_.forward(lst_)
+            return impl.ops_of(lst_) if side == 'py' else t_ops(lst_)
+        for how in ('compiled', 'copy'):
+            probe('diagonalize(Pauli)', lambda: dg('py', how), lambda: dg('t', how), (nz5, i5, how))
+        rows5, _r5 = G.rand_tableau(rng, n5, 0)
+
+        def dgs(side, how):
+            st_ = impl.state(rows5, 0) if side == 'py' else tstate(rows5, 0)
+            c_ = (CI.diagonalize(st_) if side == 'py' else TCI.diagonalize(st_))
+            if how == 'copy':
+                c_ = c_.copy()
+            elif how == 'used-then-copy':
+                c_.forward(impl.state(rows5, 0) if side == 'py' else tstate(rows5, 0)); c_ = c_.copy()
+            elif how == 'compiled':
+                c_.compile()
+            s2 = impl.state(rows5, 0) if side == 'py' else tstate(rows5, 0)
+            c_.forward(s2)
+            ops_ = impl.ops_of(s2) if side == 'py' else t_ops(s2)
+            return O.canon_group(ops_[0:n5])[0]
+        for how in ('plain', 'copy', 'used-then-copy', 'compiled'):
+            probe('diagonalize(StabilizerState)', lambda: dgs('py', how), lambda: dgs('t', how), (rows5, how))
+        # wide mixed states: few active stabilizers on many qubits (coefficients 2^-N far below the default tolerance of reduce)
+        Nw = rng.choice([12, 17, 18, 20])
+        stabs = [(tuple('Z' if j in (0, Nw - 1) else 'I' for j in range(Nw)), 2), (tuple('X' if j < 2 or j == Nw - 1 else 'I' for j in range(Nw)), 0)][:rng.choice([1, 2])]
+        if len(stabs) == 2 and O.anticommute(stabs[0], stabs[1]):
+            stabs = stabs[:1]
+        dm_py = lambda: (lambda d_: sorted((O.from_gp(g_, int(p_)), round(float(np.real(c_)) * 2 ** Nw, 6)) for g_, p_, c_ in zip(np.asarray(d_.gs), np.asarray(d_.ps), np.asarray(d_.cs))))(pc.stabilizer_state(impl.plist(stabs, Nw)).density_matrix)
+        dm_t = lambda: (lambda d_: sorted((O.from_gp([ival(v) for v in g_], ival(p_)), round(float(complex(c_).real) * 2 ** Nw, 6)) for g_, p_, c_ in zip(d_.gs.tolist(), d_.ps.tolist(), d_.cs.tolist())))(tc.stabilizer_state(tlist(stabs, Nw)).density_matrix)
+        probe('StabilizerState.density_matrix', dm_py, dm_t, ('wide', Nw, len(stabs)))
+        # regions as unsorted index lists / tuples
+        n4 = rng.choice([3, 4, 5])
+        rows4, r4 = G.rand_tableau(rng, n4, rng.choice([0, 1, None]))
+        reg4 = rng.sample(range(n4), rng.randrange(2, n4 + 1))
+        probe('StabilizerState.entropy', lambda: int(impl.state(rows4, r4).entropy(list(reg4))), lambda: ival(tstate(rows4, r4).entropy(list(reg4))), (rows4, r4, 'unsorted', reg4),
+              when_pred=lambda a_, b_: 'explained-by-real-rank-in-torch-z2rank' if (not isinstance(b_, str) and _entropy_real_rank(rows4, r4, n4, sorted(reg4)) == b_) else '')
     # ---- reduce around the tolerance: moduli between tol and sqrt(tol), explicit tolerances
     for _ in range(nx):
         n = rng.choice([1, 2])
@@ -430,15 +509,25 @@ def run(ctx, only=None):
         if n <= 3:
             probe('StabilizerState.to_qutip', lambda: np.round(tq(impl.state(rows, r).to_qutip()), 6).tolist(), lambda: np.round(tq(tstate(rows, r).to_qutip()), 6).tolist(), (rows, r))
     # ---- entropy on many (state, region) pairs, small N (the recorded real-rank finding needs larger matrices), generators re-mixed
-    for _ in range(nx * 8):
-        n = rng.choice([2, 3, 3, 4, 4])
+    for _ in range(nx * 12):
+        n = rng.choice([2, 3, 4, 4, 4, 5])
         rows, r = G.rand_tableau(rng, n, rng.choice([0, 1, 1, 2, None]))
         r = min(r, n)
         reg = sorted(rng.sample(range(n), rng.randrange(0, n + 1)))
         if not reg:
             continue
-        want = None
-        probe('StabilizerState.entropy', lambda: int(impl.state(rows, r).entropy(reg)), lambda: ival(tstate(rows, r).entropy(reg)), (rows, r, reg),
+        arg = list(reg)
+        if rng.random() < 0.5:
+            rng.shuffle(arg)                 # the order in which the qubits of a region are listed is immaterial
+            pairs_ = [(a_, b_) for a_ in reg for b_ in reg if b_ - a_ + 1 == len(reg) and reg != list(range(a_, b_ + 1))]
+            if pairs_ and rng.random() < 0.7:   # ... also when first and last entry look like the ends of a block of adjacent qubits
+                a_, b_ = rng.choice(pairs_)
+                mid_ = [q_ for q_ in reg if q_ not in (a_, b_)]
+                rng.shuffle(mid_)
+                arg = [a_] + mid_ + [b_]
+        if rng.random() < 0.3:
+            arg = tuple(arg)
+        probe('StabilizerState.entropy', lambda: int(impl.state(rows, r).entropy(arg)), lambda: ival(tstate(rows, r).entropy(arg)), (rows, r, arg),
               when_pred=lambda a_, b_: 'explained-by-real-rank-in-torch-z2rank' if (not isinstance(b_, str) and _entropy_real_rank(rows, r, n, reg) == b_) else '')
     # ---- maps with structure: Pauli layers, signed permutations (SWAP / Hadamard layers), wide registers
     def special_map(n):
